@@ -58,8 +58,8 @@ def Label.grp : Label → Nat
 
 macro "invc_auto" : tactic =>
   `(tactic| (constructor <;> (try simp only [doRegSet, doFire, doRetire, doLoadFlag, doXchgFlag, doLoad3, doXchg3, doCas3, doLoadLf,
-      doXchgLf, doFsubLf, doSetOut, doStore, doDec, doDtorRel, doDtorSet, setPc, finish] at *) <;>
-      grind [= upd_apply, cntH_upd, active, holding, inDtor, beforeRetire, entered]))
+      doXchgLf, doFsubLf, doSetOut, doDec, doDtorRel, doDtorSet, setPc, finish] at *) <;>
+      grind [= upd_apply, cntH_upd, active, holding, inDtor, beforeRetire, entered, done_of_not_holding, Strat.managed, Strat.isAllVec]))
 
 theorem inv_init (w : Workload) : InvC w (init w) := by
   constructor <;> simp [init, active, holding, inDtor, beforeRetire, entered, cntH]
